@@ -38,7 +38,7 @@ import conv  # noqa: E402
 import fltm  # noqa: E402
 import transm  # noqa: E402
 
-ARITH_OPS = set(arith.FORMS)
+ARITH_OPS = set(arith.FORMS) | {"fold"}
 REM_OPS = set(remm.FORMS)
 TRANS_OPS = {"sqrt", "log2", "ln", "exp", "pow", "powi", "sin", "cos", "tan"}
 
@@ -65,6 +65,8 @@ def form_name(toks, i):
     if op in REM_OPS:
         f = remm.FORMS[op]
         return f[i][0] if i < len(f) else "pos%d" % i
+    if op == "fold":
+        return ("sum_by_value", "sum_by_ref", "product_by_value", "product_by_ref")[i] if i < 4 else "fold[%d]" % i
     if op in ARITH_OPS:
         f = arith.FORMS[op]
         return "%s_%s" % (arith.FORM_NAME.get(f[i], f[i]) if i < len(f) else "pos", op)
